@@ -41,7 +41,7 @@ class RuleOut:
 
     def bad(self, key, message, where="", detail=None, n=1):
         self.instances += n
-        full = f"{self.rule_id}/{key}"
+        full = re.sub(r"\s+", "", f"{self.rule_id}/{key}")
         if full in self._seen:
             for f in self.findings:
                 if f.key == full:
